@@ -10,7 +10,7 @@ PROPERTY = "C06"
 LEVEL = "exploration"
 RULE = ("G1 with-programs (all four function kinds) and G2 await/yield-from chains; for each, a Hypothesis-drawn subset of "
         "its suspension points and probe (running) points at which extraction is performed, a repetition count 1-3 and the "
-        "context-analysis mode (trickery / referents); CPython 3.9-3.12. Oracles: (a) metamorphic - the event trace of the "
+        "context-analysis mode (trickery / referents); CPython 3.9-3.12. Between two extractions that are compared the first result is read in every way (str, format, format_flat, summaries, clsname / linetext of each frame). Oracles: (a) metamorphic - the event trace of the "
         "program (values yielded, managers entered/exited in order with the exception type they saw, probe calls, exceptions, "
         "result) with extractions at the chosen points is identical to the trace of the never-observed twin; (b) two consecutive "
         "extractions of the unchanged target compare equal; (c) retention - after one warm-up extraction in the same state, "
